@@ -330,6 +330,51 @@ pub fn mixed_size_case(prefix: &usize, as_array: &bool, specs: &[(u8, usize, u8)
 	}
 			}
 
+/// H_after_histories on one case: an object reached through a history of C06 operations vs fresh builds of its final entry list.
+pub fn after_history_case(ops: &[super::c06::Op], sel: u16, kind: u8) -> Outcome {
+	let universe = ["a", "\u{e000}", "\u{10000}", "c"];
+	let (obj, model) = match super::c06::run_history(ops, &universe, false) {
+		Ok(x) => x,
+		// an operation that misbehaves is C06's business; this family only needs *some* object with a history
+		Err(m) => return Outcome::fail(format!("SKIP: the operation history did not produce the modelled object (C06's business) [{m}]")),
+	};
+	let salt = (*(&sel) as u64) << 8 | kind as u64;
+	let cloned = obj.clone();
+	if let Err(m) = check_equal_pair(&obj, &cloned, "object after the history vs its clone") {
+		return Outcome::fail(m);
+	}
+	for r in [0u8, 1, 3, 8] {
+		if let Some(fresh) = build_route(&model, r, salt) {
+			let what = format!("object after the history vs its final entry list built through route {r}");
+			if let Err(m) = check_equal_pair(&obj, &fresh, &what) {
+				return Outcome::fail(m);
+			}
+			if let Err(m) = check_equal_pair(&Value::Object(obj.clone()), &Value::Object(fresh), &format!("values wrapping {what}")) {
+				return Outcome::fail(m);
+			}
+		}
+	}
+	// a near copy of the final entry list: == must agree with the entry lists, cmp must be antisymmetric and Equal iff ==
+	let near = near_copy(&RefValue::Obj(model.clone()), sel, kind);
+	let expected_eq = near == RefValue::Obj(model.clone());
+	let (a, b) = (Value::Object(obj), near.to_value());
+	if (a == b) != expected_eq || (b == a) != expected_eq {
+		return Outcome::fail(format!("object after the history vs a near copy of its entry list: == is {} but the entry lists are {}", a == b, if expected_eq { "identical" } else { "different" }));
+	}
+	if (a.cmp(&b) == Ordering::Equal) != expected_eq || a.cmp(&b) != b.cmp(&a).reverse() {
+		return Outcome::fail(format!("object after the history vs a near copy of its entry list: cmp {:?} / {:?} while entry lists are {}", a.cmp(&b), b.cmp(&a), if expected_eq { "identical" } else { "different" }));
+	}
+	if expected_eq && h_stream(&a) != h_stream(&b) {
+		return Outcome::fail("object after the history vs an identical rebuild: hash streams differ".into());
+	}
+	let mut keys: Vec<&str> = model.iter().map(|e| e.0.as_str()).collect();
+	keys.sort();
+	let has_dup = keys.windows(2).any(|w| w[0] == w[1]);
+	let removal = ops.iter().any(|o| matches!(o, super::c06::Op::Remove(..) | super::c06::Op::RemoveAt(_) | super::c06::Op::RemoveUnique(_) | super::c06::Op::Insert(..) | super::c06::Op::InsertFront(..)));
+	let reorder = ops.iter().any(|o| matches!(o, super::c06::Op::Sort | super::c06::Op::Canonicalize(_)));
+	Outcome::ok(removal && model.len() >= 2, vec![if has_dup { "final_has_duplicates" } else { "final_duplicate_free" }, if reorder { "history_sorts_or_canonicalizes" } else { "history_without_sort" }])
+}
+
 pub fn run(ctx: &mut Ctx) {
 	if ctx.wants("L_laws_on_triples") {
 		let n = ctx.pick(250_000, 1_500_000);
@@ -369,6 +414,22 @@ pub fn run(ctx: &mut Ctx) {
 				}
 			},
 			|(entries, salt, sort_first)| json!({"entries": RefValue::Obj(entries.clone()).encode(), "salt": salt, "sort_first": sort_first}),
+		);
+		ctx.add(fam);
+	}
+	// objects reached through operation histories, not only built in one go
+	if ctx.wants("H_after_histories") {
+		let n = ctx.pick(20_000, 300_000);
+		let keys: Vec<String> = vec!["a".into(), "\u{e000}".into(), "\u{10000}".into()];
+		let fam = Fam::new("H_after_histories", "proptest: an object produced by a random history of C06 operations over 3 keys (pushes, front insertions, removals by key/position/iterator, insert collapses, sorts, canonicalizations, bulk rebuilds, clones, clone_from) compared with its clone and with its final entry list built afresh through 4 routes (push, from_vec, over-build + remove_at, parse): ==, cmp Equal, same hash (objects and wrapping values); and with a near copy of that list: == and cmp agree with the entry lists; non-trivial = the history contains a removal and >= 2 entries remain", false);
+		let ks = keys.clone();
+		let fam = run_proptest(
+			ctx,
+			fam,
+			n,
+			move || (proptest::collection::vec(super::c06::arb_op(ks.clone(), true), 2..40), any::<u16>(), any::<u8>()),
+			|(ops, sel, kind)| after_history_case(ops, *sel, *kind),
+			|(ops, sel, kind)| { let mut j = super::c06::ops_json(ops); j["sel"] = json!(sel); j["kind"] = json!(kind); j },
 		);
 		ctx.add(fam);
 	}
@@ -440,6 +501,13 @@ pub fn replay(family: &str, case: &J) -> Result<(), String> {
 	if family == "M_mixed_size_triples" {
 		let specs: Vec<(u8, usize, u8)> = case["specs"].as_array().ok_or("bad case")?.iter().map(|e| (e[0].as_u64().unwrap() as u8, e[1].as_u64().unwrap() as usize, e[2].as_u64().unwrap() as u8)).collect();
 		return match mixed_size_case(&(case["prefix"].as_u64().unwrap() as usize), &case["as_array"].as_bool().unwrap(), &specs).verdict {
+			Ok(()) => Ok(()),
+			Err((m, _)) => Err(m),
+		};
+	}
+	if family == "H_after_histories" {
+		let ops: Vec<super::c06::Op> = case["ops"].as_array().ok_or("bad case")?.iter().map(super::c06::dec_op).collect();
+		return match after_history_case(&ops, case["sel"].as_u64().unwrap_or(0) as u16, case["kind"].as_u64().unwrap_or(0) as u8).verdict {
 			Ok(()) => Ok(()),
 			Err((m, _)) => Err(m),
 		};
